@@ -121,6 +121,42 @@ func (s *gatedStream) Send(p *drand.BeaconPacket) error {
 	return s.ctx.Err()
 }
 
+// cursorSpy records when read transactions (cursors) are open on the base store.
+type cursorSpy struct {
+	chain.Store
+	mu    sync.Mutex
+	spans [][2]time.Time // [start, end); end zero while open
+}
+
+func (c *cursorSpy) Cursor(ctx context.Context, fn func(context.Context, chain.Cursor) error) error {
+	c.mu.Lock()
+	i := len(c.spans)
+	c.spans = append(c.spans, [2]time.Time{time.Now(), {}})
+	c.mu.Unlock()
+	defer func() {
+		c.mu.Lock()
+		c.spans[i][1] = time.Now()
+		c.mu.Unlock()
+	}()
+	return c.Store.Cursor(ctx, fn)
+}
+
+// openDuring: a cursor was open at some instant of [from, to] (to zero: for ever).
+func (c *cursorSpy) openDuring(from, to time.Time) bool {
+	c.mu.Lock()
+	defer c.mu.Unlock()
+	for _, s := range c.spans {
+		if !to.IsZero() && s[0].After(to) {
+			continue
+		}
+		if !s[1].IsZero() && s[1].Before(from) {
+			continue
+		}
+		return true
+	}
+	return false
+}
+
 type putObs struct {
 	round    uint64
 	start    time.Time
@@ -134,6 +170,7 @@ type streamEngine struct {
 	sc      *StreamScenario
 	rec     *Recorder
 	st      beacon.CallbackStore
+	spy     *cursorSpy
 	streams []*gatedStream
 	mu      sync.Mutex
 	puts    []*putObs
@@ -224,6 +261,8 @@ func (e *streamEngine) body(dir string, res *RunResult) {
 		res.HarnessErr = "open: " + err.Error()
 		return
 	}
+	e.spy = &cursorSpy{Store: base}
+	base = e.spy
 	if err := base.Put(ctx, e.beaconOf(0)); err != nil {
 		res.HarnessErr = "genesis: " + err.Error()
 		return
@@ -355,32 +394,22 @@ func (e *streamEngine) check(res *RunResult) {
 	// the shipped callback queue holds 100 beacons per consumer.
 	const shippedQueue = 100
 	classify := func(o *putObs) string {
-		inScan, slowLive := false, false
+		// (1) a read transaction of a stream's catch-up scan was open while the Put was in progress
+		end := o.end
+		if !o.returned {
+			end = time.Time{}
+		}
+		if sc.Backend != "memdb" && e.spy.openDuring(o.start, end) {
+			return "consumer-inside-bolt-cursor-scan"
+		}
+		// (2) a sluggish consumer in live delivery and more than the shipped queue of beacons since
+		slowLive := false
 		for _, s := range e.streams {
-			s.mu.Lock()
-			open := !s.openAt.IsZero() && !s.openAt.After(o.start)
-			scanning := open && s.plan.From > 0 && s.plan.From <= s.headAtOpen
-			if scanning {
-				// has the Send of the last pre-existing item returned before the Put began?
-				for k, r := range s.got {
-					if r >= s.headAtOpen && k < len(s.gotAt) && !s.gotAt[k].After(o.start) {
-						scanning = false
-					}
-				}
-			}
-			sluggish := s.plan.SendUs > 0 || s.plan.HoldAt >= 0 || s.plan.CancelAfter >= 0
-			s.mu.Unlock()
-			if scanning && sluggish {
-				inScan = true
-			}
-			if open && !scanning && sluggish {
+			if s.plan.SendUs > 0 || s.plan.HoldAt >= 0 || s.plan.CancelAfter >= 0 {
 				slowLive = true
 			}
 		}
-		switch {
-		case inScan && sc.Backend != "memdb":
-			return "consumer-inside-bolt-cursor-scan"
-		case slowLive && int(o.round)-sc.Preload > shippedQueue:
+		if slowLive && int(o.round)-sc.Preload > shippedQueue {
 			return "consumer-queue-of-100-full"
 		}
 		return "other"
